@@ -108,7 +108,7 @@ PROPS = {
                "Zap.C17.C17_merge_outcomes", "Zap.C17.C17_writeTo_fault", "Zap.C04.footer_crc_is_crc_of_all_preceding_bytes"],
               THEORY_FILES + ["ZapProofs/Props/C17.lean"],
               partial="Sync/Close failures and OS write semantics are outside the model (observed through RLIMIT_FSIZE faults)"),
-    "C18": _p([{"gen": "C18"}], ["ZapProofs.Props.C18"],
+    "C18": _p([{"gen": "C18"}, {"gen": "C18", "vectors": True, "seed_offset": 17, "n": {"quick": 12, "thorough": 60}}], ["ZapProofs.Props.C18"],
               ["Zap.C18.c18SideCondition_holds", "Zap.C18.C18_cancel_outcomes", "Zap.C18.C18_closed_before_call",
                "Zap.C18.C18_cancel_and_fault", "Zap.C18.C18_vector_sites_release"],
               THEORY_FILES + ["ZapProofs/Props/C18.lean"]),
